@@ -91,6 +91,11 @@ known("C01", "C01-named-fragment-reused", ["frag-named-twice"], r"^diff:EXTRA (i
       "sanitizeSelectionSet mutates the shared fragment definition on first use; the second spread sees the injected helper as client-selected and does not register it for scrubbing",
       witness="{ n2 { ...F } b: n2 { ...F } } fragment F on N2 { owner { calc } }")
 
+known("C01", "C01-same-key-across-fragment-explicit-id", ["same-response-key-across-fragment", "explicit-id"], r"^diff:MISSING id$",
+      "one composite field selected twice under one response key, once directly and once through a fragment, with `id` requested explicitly in only one of the two: the helper `id` the planner adds for the other one is registered for scrubbing at the shared path and the client's own `id` is removed (sibling selections without a fragment are merged since fix 7dafd02)",
+      witness="{ n2 { id } ... { n2 { title } } }")
+fixed("C01", "C01-same-response-key-siblings-not-merged", "7dafd02", "{ n1s { name } n1s { phone } }: the sanitizer kept the first of two sibling fields with one response key and dropped the other's selections (phone missing, no error)")
+
 # ----------------------------------------------------------------------------- C02 (same defect classes seen at the plan / sub-request level)
 C02 = [
  ("root-node", ["root-node"], [r"^plan-drops-client-field: (__typename|node|id|<field>)$", r"^subrequest-invalid: Cannot query field \"<x>\" on type \"<x>\"\.", r"^subrequest-invalid: Fields \"id\" conflict",
